@@ -68,6 +68,15 @@ def render_case(ty, cl):
     return "\n".join(out)
 
 
+def render_let(ty, p):
+    """the same pattern under `let`: accepted iff it matches every value; then the bindings are those of the pattern"""
+    T = ag.render_types()
+    names = name_vars(p, [0])
+    body = ["  let %s = x" % ag.render_pat(p), "  let d0: Data = 1"] + ["  let d%d: Data = %s" % (j + 1, n) for j, n in enumerate(names)]
+    body.append("  [%s]" % ", ".join("d%d" % j for j in range(len(names) + 1)))
+    return "\n".join([T, "pub fn m(x: %s) -> List<Data> {" % ag.ty_str(ty)] + body + ["}\n"])
+
+
 # ---- parse the checker's "unmatched" pattern strings, e.g. `Some(_)`, `[_, ..]`, `(_, False)`, `Rect { w: 1, .. }`, `Rect(_, _)`
 def tokenize(s):
     return re.findall(r"[A-Za-z_][A-Za-z_0-9]*|\d+|\.\.|[\[\](){},:|]", s)
@@ -175,7 +184,7 @@ def c07(tier):
     rep = vlib.Reporter("C07")
     plan = [("Bool", 3), ("Color", 3), ("OptInt", 3), ("TupIntBool", 2), ("Shape", 2), ("ListInt", 2), ("ListIntSmall", 3), ("TupListSmall", 4), ("IntBig", 3), ("PairIntBool", 2), ("OptColor", 2)] if tier == "quick" else \
            [("Bool", 4), ("Color", 4), ("OptInt", 3), ("TupIntBool", 3), ("Shape", 3), ("ListInt", 3), ("ListIntSmall", 3), ("TupListSmall", 4), ("IntBig", 4), ("PairIntBool", 3), ("OptColor", 3), ("TupColorOpt", 2), ("Point", 3)]
-    states = trans = total = accepted = rejected = runs = 0
+    states = trans = total = accepted = rejected = runs = lets = lets_rejected = 0
     samples = []
     verdicts = {"ok": 0, "redundant": 0, "nonexhaustive": 0}
     only = os.environ.get("VERIF_C07_ONLY")          # debugging aid: a subset of the plan (evidence then says so)
@@ -195,6 +204,47 @@ def c07(tier):
             fns = [{"name": "m", "args": [[big_data(d)] for d in uni]}] if (c["redundant"] == 0 and c["exhaustive"]) else []
             real.append({"id": i, "src": src, "tracings": [["all", "silent"]], "fns": fns})
         obs = vlib.run_harness("aiken_run", stdin_lines=real, timeout=7200)
+        # every single pattern also under `let`
+        import copy as _copy
+        singles = [c for c in cases if len(c["cl"]) == 1]
+        lreal = []
+        for i, c in enumerate(singles):
+            src = render_let(ty, _copy.deepcopy(c["cl"][0]))
+            if tyname == "IntBig":
+                src = big_text(src)
+            lreal.append({"id": i, "src": src, "tracings": [["all", "silent"]], "fns": [{"name": "m", "args": [[big_data(d)] for d in uni]}] if c["exhaustive"] else []})
+        lobs = vlib.run_harness("aiken_run", stdin_lines=lreal, timeout=7200) if lreal else []
+        for c, rq, o in zip(singles, lreal, lobs):
+            lets += 1
+            run = o["runs"][0]
+            chk = run["check"]
+            key = tyname + "|let|" + cj(ag.strip_names(c["cl"]))
+            payload = {"type": tyname, "source": rq["src"][rq["src"].index("pub fn m"):], "spec": {"exhaustive": c["exhaustive"]}, "checker": chk}
+            if isinstance(chk, dict) and "panic" in chk:
+                rep.violation(key + "|panic", payload, "the checker panicked: %s" % chk["panic"][:200])
+            elif c["exhaustive"]:
+                if chk != "ok":
+                    rep.violation(key, payload, "the pattern of a `let` matches every value, but the checker rejects it: %s" % json.dumps(chk)[:200])
+                    continue
+                f = run["fns"][0]
+                if f["compile"] != "ok":
+                    rep.violation(key + "|compile", dict(payload, compile=f["compile"]), "compiling an accepted `let` panicked")
+                    continue
+                for j, (exp, x) in enumerate(zip(c["runs"], f["results"])):
+                    runs += 1
+                    want = {"d": "L", "v": [{"d": "I", "v": 1}] + big_data(exp["b"])}
+                    got = x["post"]
+                    gd = got.get("d")
+                    if gd is None and got.get("c", {}).get("t") == "list":
+                        gd = {"d": "L", "v": [e["v"] for e in got["c"]["v"]]}
+                    if got["o"] != "val" or cj(gd) != cj(want):
+                        rep.violation(key + "|run%d" % j, dict(payload, value=uni[j], expected=want, observed={k2: got[k2] for k2 in got if k2 in ("o", "d", "c", "e")}),
+                                      "the compiled `let` does not bind the pattern's variables to the corresponding sub-values")
+                        break
+            else:
+                lets_rejected += 1
+                if chk == "ok":
+                    rep.violation(key, payload, "the checker accepts a `let` whose pattern does not match every value of the type")
         for c, rq, o in zip(cases, real, obs):
             total += 1
             run = o["runs"][0]
@@ -258,13 +308,15 @@ def c07(tier):
         log("[c07] %s K=%d: %d clause lists" % (tyname, k, len(cases)))
     if accepted < 50 or rejected < 50:
         raise vlib.ToolError("C07 vacuity: %d accepted / %d rejected clause lists" % (accepted, rejected))
+    if not only and (lets < 40 or lets_rejected < 15):
+        raise vlib.ToolError("C07 vacuity: %d single patterns under `let`, %d of them refutable" % (lets, lets_rejected))
     cov = {"states": states, "transitions": trans, "traces_validated_against_impl": total + runs, "samples": samples[:4],
            "evaluations": total + runs, "distinct_nontrivial": total,
            "rule": "MC_Match: for each scrutinee type, EVERY clause list of up to K clauses over the pattern grammar of depth <= 2 "
                    "(constructors positional / labelled, tuples, pairs, lists with and without `..rest`, Int and Bool literals, variables, "
                    "discards); verdict (accept / first unreachable clause / not exhaustive) from the semantic definition over a complete "
                    "value universe; accepted ones are compiled and run on EVERY value of the universe comparing clause index and bindings",
-           "exhaustive": True, "accepted": accepted, "rejected": rejected, "runs_of_compiled_when": runs, "spec_verdicts": verdicts}
+           "exhaustive": True, "accepted": accepted, "rejected": rejected, "single_patterns_under_let": lets, "refutable_lets_that_must_be_rejected": lets_rejected, "runs_of_compiled_when": runs, "spec_verdicts": verdicts}
     rc = rep.finish()
     vlib.write_evidence("C07", tier, "model_checking", cov,
                         ["the usefulness ALGORITHM is not transcribed: the checker is compared with the semantic definition directly",
